@@ -33,7 +33,18 @@ def pc_truth(pc):
             return learn(t[1], not v)
         if t[0] == "truth":
             return learn(t[1], v)
+        if t[0] == "and" and v:
+            for x in t[1]:
+                learn(x, True)
+            return
         out[t] = v
+        if t[0] == "isnone":
+            # `x is None` decides x's truthiness when true; a fetched row that
+            # is not None is a non-empty mapping, i.e. truthy
+            if v:
+                out[t[1]] = False
+            elif t[1][0] in ("row", "obj"):
+                out[t[1]] = True
     for (t, b, site) in pc:
         learn(t, b)
     return out
